@@ -313,6 +313,29 @@ func (g *Gen) intExpr(env []binding, d int) r.Val {
 		if a == b {
 			b = a + "2"
 		}
+		if k := g.pick("mvbclosure", 4); k > 0 {
+			// a closure made in the values form (or in an init form of let / let*) and called in the body, where a
+			// variable of the name it closes over has been bound again: it sees and updates the binding around the
+			// binding form (in let*, the earlier binding of the same form), not the new one
+			g.kind("closure-in-init")
+			g.Feat["closure"] = true
+			g.Feat["setq"] = true
+			kf := "k" + b
+			lam := r.L(sym("lambda"), r.L(sym("n")), r.L(sym("setq"), sym(a), r.L(sym("+"), sym(a), sym("n"))), g.mark(sym(a)))
+			outer := with(env, binding{a, TInt})
+			inner := with(outer, binding{kf, TFun})
+			body := []r.Val{r.L(sym("+"), r.L(sym("funcall"), sym(kf), g.Expr(TInt, inner, d+1)), r.L(sym("*"), int64(100), sym(a)), r.L(sym("funcall"), sym(kf), g.lit()))}
+			var form r.Val
+			switch k {
+			case 1:
+				form = r.L(append([]r.Val{sym("multiple-value-bind"), r.L(sym(a), sym(kf)), r.L(sym("values"), g.Expr(TInt, outer, d+1), lam)}, body...)...)
+			case 2:
+				form = r.L(append([]r.Val{sym("let"), r.L(r.L(sym(a), g.Expr(TInt, outer, d+1)), r.L(sym(kf), lam))}, body...)...)
+			default:
+				form = r.L(append([]r.Val{sym("let*"), r.L(r.L(sym(kf), lam), r.L(sym(a), g.Expr(TInt, outer, d+1)))}, body...)...)
+			}
+			return r.L(sym("let"), r.L(r.L(sym(a), g.Expr(TInt, env, d+1))), r.L(sym("+"), form, sym(a)))
+		}
 		return r.L(sym("multiple-value-bind"), r.L(sym(a), sym(b)), g.valuesForm(env, d+1),
 			g.Expr(TInt, with(env, binding{a, TInt}, binding{b, TInt}), d+1))
 	case 20:
